@@ -41,13 +41,29 @@ class Check:
         self.seed = int(os.environ.get("VERIF_SEED", "0") or 0)
         self.exhaustive = None
         self.extra = {}
+        # overlay: the same rules evaluated again over another build configuration (thorough tier).  Keys get the
+        # configuration as a prefix; constructs that do not exist in that configuration are recorded as absent
+        # (they are decided in K1), floors are recorded but not enforced (they were counted in K1).
+        self._overlay = None
+        self.overlay_stats = {}
+
+    def overlay(self, name):
+        self._overlay = name
+        if name:
+            self.overlay_stats[name] = dict(discharged=0, absent=0, violated=0)
+
+    def _k(self, key):
+        return "%s/%s" % (self._overlay, key) if self._overlay else key
 
     # -- recording ---------------------------------------------------------------------------------
     def explain(self, text):
+        if self._overlay:
+            return
         self.explanations.append(text)
 
     def assume(self, text):
-        self.assumptions.append(text)
+        if text not in self.assumptions:
+            self.assumptions.append(text)
 
     def trust(self, text):
         if text not in self.trusted:
@@ -60,11 +76,20 @@ class Check:
         }
 
     def ok(self, key, text, sites=(), construct=None):
-        self.obligations.append(dict(key=key, text=text, status="discharged",
+        if self._overlay:
+            self.overlay_stats[self._overlay]["discharged"] += 1
+        self.obligations.append(dict(key=self._k(key), text=text, status="discharged",
                                      sites=[str(s) for s in sites][:12], construct=construct))
 
     def fail(self, key, text, detail, loc=None, construct=None, path=None):
-        self.obligations.append(dict(key=key, text=text, status="violated", detail=detail, loc=loc,
+        if self._overlay:
+            if str(detail).startswith("anchor missing"):
+                self.overlay_stats[self._overlay]["absent"] += 1
+                self.obligations.append(dict(key=self._k(key), text=text, status="absent-in-config", sites=[],
+                                             construct=str(detail)[:200]))
+                return
+            self.overlay_stats[self._overlay]["violated"] += 1
+        self.obligations.append(dict(key=self._k(key), text=text, status="violated", detail=detail, loc=loc,
                                      construct=construct, path=path, sites=[]))
 
     def ob(self, key, text, fn, loc=None):
@@ -94,6 +119,9 @@ class Check:
 
     def floor(self, what, measured, minimum):
         """A rule that matches fewer instances than were confirmed by hand must not pass."""
+        if self._overlay:
+            self.floors.append(dict(what="%s/%s" % (self._overlay, what), measured=measured, floor=0))
+            return
         self.floors.append(dict(what=what, measured=measured, floor=minimum))
         key = "%s.floor:%s" % (self.pid, what)
         if measured < minimum:
@@ -140,7 +168,7 @@ class Check:
             for line in str(o["detail"]).splitlines()[:14]:
                 print("  | " + line)
         total = len(self.obligations)
-        discharged = sum(1 for o in self.obligations if o["status"] == "discharged")
+        discharged = sum(1 for o in self.obligations if o["status"] in ("discharged", "absent-in-config"))
         nontrivial = len({o["key"] for o in self.obligations if o["status"] == "discharged" and o.get("sites")})
         samples = []
         for o in self.obligations:
